@@ -93,8 +93,12 @@ func (r Result) PanicSite() (site, msg string) {
 		if j := strings.LastIndex(file, ":"); j > 0 {
 			file = file[:j]
 		}
-		if j := strings.Index(file, "/repo/"); j >= 0 {
-			file = file[j+len("/repo/"):]
+		repoPrefix := "/repo/"
+		if r := os.Getenv("VERIF_REPO"); r != "" {
+			repoPrefix = strings.TrimSuffix(r, "/") + "/"
+		}
+		if j := strings.Index(file, repoPrefix); j >= 0 {
+			file = file[j+len(repoPrefix):]
 		}
 		return file + ":" + fn, msg
 	}
